@@ -117,7 +117,13 @@ impl Prop for C10 {
         let mut pool: Vec<Section> = Vec::new();
         for _ in 0..pool_n {
             let k = *t.pick(KINDS);
-            pool.push(gen_section_of_kind(t, &o, k));
+            let mut sec = gen_section_of_kind(t, &o, k);
+            // `git diff --no-index dir1 dir2`: the two names on the "diff --git" line differ
+            if sec.kind == SK::BinaryModified && t.chance(1, 3) {
+                sec.new_path = format!("new/{}", sec.old_path);
+                sec.old_path = format!("old/{}", sec.old_path);
+            }
+            pool.push(sec);
         }
         let n = t.range(2, 6);
         let mut seq: Vec<&Section> = Vec::new();
